@@ -131,7 +131,11 @@ func VerifC13Routing() {
 	for i := 0; i < 2; i++ {
 		if isRegex[i] {
 			// regexp substitution semantics are not encoded: a template without group references is returned as is
-			zz.Assume(verifRouteRegex(i).ReplaceAllString(host, ups[i]) == ups[i])
+			// (only where the pattern matches: on other hosts the substitution is not used, and the
+			// native stand-in pattern leaves a non-matching host unchanged)
+			if verifRouteRegex(i).MatchString(host) {
+				zz.Assume(verifRouteRegex(i).ReplaceAllString(host, ups[i]) == ups[i])
+			}
 		}
 	}
 	// expected route: exact static match first, else first matching pattern, else none
@@ -155,6 +159,12 @@ func VerifC13Routing() {
 	mintHost := ""
 	if ports {
 		mintHost = zz.HostPort(portBase, []string{"8001", "8002"}[zz.Choose("session.port", 2)])
+	} else if zz.NondetBool("session.host.case-variant") {
+		// the session was minted for a host that differs from the request's only in letter case
+		rest := zz.NondetString("req.host.rest")
+		zz.Assume(zz.And(host == "h"+rest, !strings.Contains(rest, ":")))
+		mintHost = "H" + rest
+		zz.Reach("case-variant-host")
 	} else {
 		mintHost = zz.NondetString("session.host")
 	}
